@@ -423,12 +423,18 @@ impl Interpreter {
             OpCodes::OP_LSHIFT => {
                 let a = state.stack.pop_bigint()?;
                 let b = state.stack.pop_number()?;
+                if b < 0 {
+                    return Err(InterpreterError::InvalidStackOperation("Shift count must not be negative"));
+                }
 
                 state.stack.push_bigint(a << b)?;
             }
             OpCodes::OP_RSHIFT => {
                 let a = state.stack.pop_bigint()?;
                 let b = state.stack.pop_number()?;
+                if b < 0 {
+                    return Err(InterpreterError::InvalidStackOperation("Shift count must not be negative"));
+                }
 
                 state.stack.push_bigint(a >> b)?;
             }
